@@ -334,45 +334,74 @@ def diagonal_runs(s1, s2, mat, seed, direction):
 def dp_opt(s1, s2, mat, gap, mode):
     """Needleman-Wunsch / Smith-Waterman / Gotoh optimum.  Three states: M (last column is a
     pair), X (last column: symbol of s1 against gap), Y (symbol of s2 against gap).  With a
-    linear penalty every transition is allowed; with affine penalties X<->Y is not."""
+    linear penalty every transition is allowed; with affine penalties X<->Y is not.
+    Unreachable states hold values around NEG (-10^15), far below any real score."""
     n, m = len(s1), len(s2)
     go, ge = gap_pair(gap)
     affine = is_affine(gap)
     free = mode == "semi"
     local = mode == "local"
+    lim = NEG // 2
     M = [[NEG] * (m + 1) for _ in range(n + 1)]
     X = [[NEG] * (m + 1) for _ in range(n + 1)]
     Y = [[NEG] * (m + 1) for _ in range(n + 1)]
     M[0][0] = 0
     best = 0
     for i in range(n + 1):
+        Mi, Xi, Yi = M[i], X[i], Y[i]
+        if i > 0:
+            Mp, Xp, Yp = M[i - 1], X[i - 1], Y[i - 1]
+            row = mat[s1[i - 1]]
         for j in range(m + 1):
             if i == 0 and j == 0:
                 continue
             if i > 0 and j > 0:
-                prev = max(M[i - 1][j - 1], X[i - 1][j - 1], Y[i - 1][j - 1])
-                if local:
-                    prev = max(prev, 0)
-                if prev > NEG:
-                    M[i][j] = prev + mat[s1[i - 1]][s2[j - 1]]
+                prev = Mp[j - 1]
+                if Xp[j - 1] > prev:
+                    prev = Xp[j - 1]
+                if Yp[j - 1] > prev:
+                    prev = Yp[j - 1]
+                if local and prev < 0:
+                    prev = 0
+                if prev > lim:
+                    Mi[j] = prev + row[s2[j - 1]]
             if i > 0:
-                # s1[i-1] against a gap; free when it is terminal: before s2 starts (j == 0) or
-                # after s2 ended (j == m)
-                f = free and (j == 0 or j == m)
-                o, e = (0, 0) if f else (go, ge)
-                cands = [M[i - 1][j] + o, X[i - 1][j] + e]
+                # s1[i-1] against a gap; free when terminal: before s2 starts (j == 0) or after
+                # s2 ended (j == m)
+                if free and (j == 0 or j == m):
+                    o = e = 0
+                else:
+                    o, e = go, ge
+                x = Mp[j] + o
+                t = Xp[j] + e
+                if t > x:
+                    x = t
                 if not affine:
-                    cands.append(Y[i - 1][j] + o)
-                X[i][j] = max(c for c in cands) if max(cands) > NEG // 2 else NEG
+                    t = Yp[j] + o
+                    if t > x:
+                        x = t
+                Xi[j] = x
             if j > 0:
-                f = free and (i == 0 or i == n)
-                o, e = (0, 0) if f else (go, ge)
-                cands = [M[i][j - 1] + o, Y[i][j - 1] + e]
+                if free and (i == 0 or i == n):
+                    o = e = 0
+                else:
+                    o, e = go, ge
+                y = Mi[j - 1] + o
+                t = Yi[j - 1] + e
+                if t > y:
+                    y = t
                 if not affine:
-                    cands.append(X[i][j - 1] + o)
-                Y[i][j] = max(c for c in cands) if max(cands) > NEG // 2 else NEG
+                    t = Xi[j - 1] + o
+                    if t > y:
+                        y = t
+                Yi[j] = y
             if local:
-                best = max(best, M[i][j], X[i][j], Y[i][j])
+                if Mi[j] > best:
+                    best = Mi[j]
+                if Xi[j] > best:
+                    best = Xi[j]
+                if Yi[j] > best:
+                    best = Yi[j]
     if local:
         return best
     return max(M[n][m], X[n][m], Y[n][m])
